@@ -553,7 +553,7 @@ func (f *Frame) applyContract(ct *Contract, names []string, args []Val, results 
 	f.havocKeeping(f.cur, m, ct.Pkg)
 	f.preserveBelowFrontier(old, m, f.callFresh) // what the callee writes only in its own objects
 	res := vc.freshResult(f, results, short)
-	post := &SpecEnv{f: f, vars: env.vars, st: f.cur, old: old, pkg: ct.Pkg}
+	post := &SpecEnv{f: f, vars: env.vars, st: f.cur, old: old, pkg: ct.Pkg, self: env.self}
 	if results.Len() == 1 {
 		post.result = []Val{res}
 	} else if results.Len() > 1 {
